@@ -14,7 +14,7 @@ EXHAUSTIVE_NOTE = "the scheme x port x host x userinfo x route matrix is enumera
 ASSUMPTIONS = ["lexical port forms that int() happens to accept (+80, ' 80', 8_0, non-ASCII digits) are not generated: the statement does not define 'numeric' for them"]
 
 D = ref.DEFAULT_PORTS
-SCHEMES = ["http", "https", "ws", "wss", "ftp", "x-other", ""]
+SCHEMES = ["http", "https", "ws", "wss", "ftp", "x-other", "", "HTTP", "Wss", "FTP"]
 HOSTS = [("h.example", "h.example", "h.example"), ("h.example.", "h.example.", "h.example"), ("127.0.0.1", "127.0.0.1", "127.0.0.1"),
          ("[::1]", "::1", "[::1]"), ("[fe80::1%eth0]", "fe80::1%eth0", "[fe80::1%eth0]")]
 UIS = ["", "u@", "u:p@", ":p@"]
@@ -32,6 +32,7 @@ def check_port(ctx, backend, route, scheme, port, host, ui):
     Y = ctx.yarl(backend)
     URL = Y.URL
     htext, hraw, hps = HOSTS[host]
+    scheme_in, scheme = scheme, scheme.lower()  # every route stores the scheme lower-case
     default = D.get(scheme)
     valid = None
     if route == "ctor":
@@ -73,7 +74,7 @@ def check_port(ctx, backend, route, scheme, port, host, ui):
     elif route == "build":
         valid = port is None or (type(port) is int and 0 <= port <= 65535)
         p = port if valid else None
-        kw = {"scheme": scheme, "host": hraw, "path": "/p"}
+        kw = {"scheme": scheme_in, "host": hraw, "path": "/p"}
         if port is not None:
             kw["port"] = port
         if ui:
@@ -87,7 +88,7 @@ def check_port(ctx, backend, route, scheme, port, host, ui):
         valid = port is None or port == "" or (port.isascii() and port.isdigit() and int(port) <= 65535)
         p = None if port in (None, "") else (int(port) if valid else None)
         auth = "%s%s%s" % (ui, htext, "" if port is None else ":" + port)
-        make = lambda: URL.build(scheme=scheme, authority=auth, path="/p")  # noqa: E731
+        make = lambda: URL.build(scheme=scheme_in, authority=auth, path="/p")  # noqa: E731
     elif route in ("with_scheme", "with_scheme-fresh"):
         # the port semantics of a URL whose scheme was replaced afterwards; in the plain variant every port-related accessor of the source
         # URL has been read before (memoised values must not leak into the derived URL)
